@@ -150,6 +150,7 @@ type Case struct {
 	Wrap            []string      // command prefix (e.g. strace ...)
 	Mode            string        // subject mode, default "run"
 	Args            []string      // extra args for other modes
+	StdinOpen       bool          // the subject's standard input is a pipe that stays open and silent (a terminal nobody types on)
 	SlowStderr      bool          // the subject's stderr is a pipe with a slow reader
 	KeepWd          bool          // do not (re)create sources; re-run in place
 	RunNo           int           // run number inside the same root (separate meta files)
@@ -167,6 +168,7 @@ type Result struct {
 	Hang       string         `json:"hang,omitempty"` // "" | deadlock:<why> | inconclusive:<why>
 	HangInfo   string         `json:"hang_info,omitempty"`
 	WallMS     int64          `json:"wall_ms"`
+	StdinPipe  string         `json:"stdin_pipe,omitempty"` // with StdinOpen: how the subject's standard input reads in /proc/<pid>/fd (pipe:[inode])
 	Trace      []vproto.Event `json:"-"`
 	Events     []HookEvent    `json:"-"`
 	OutPath    string         `json:"out_path"`
@@ -273,6 +275,18 @@ func (c *Case) Run() *Result {
 	defer outF.Close()
 	cmd.Stdout = outF
 	cmd.Stderr = outF
+	if c.StdinOpen {
+		if pr, pw, err := os.Pipe(); err == nil {
+			cmd.Stdin = pr
+			defer pw.Close()
+			defer pr.Close()
+			if fi, err := pr.Stat(); err == nil {
+				if st, ok := fi.Sys().(*syscall.Stat_t); ok {
+					res.StdinPipe = fmt.Sprintf("pipe:[%d]", st.Ino)
+				}
+			}
+		}
+	}
 	var slowDone chan struct{}
 	var slowPW *os.File
 	if c.SlowStderr {
